@@ -9,6 +9,7 @@ import (
 	"github.com/zclconf/go-cty/cty"
 	"github.com/zclconf/go-cty/cty/function"
 	"github.com/zclconf/go-cty/cty/function/stdlib"
+	"unicode/utf8"
 
 	"verif/engine/h/gen"
 	"verif/engine/vf"
@@ -306,6 +307,14 @@ func mustJSON(src string) hcl.Expression {
 
 func ident(n int) string {
 	s := vf.Str(n)
+	if vf.Param("anyname", 0) == 1 {
+		// any attribute name that the type expression syntax can express: a valid
+		// identifier, ASCII or not (TypeString is documented for types that Type and
+		// TypeConstraint can produce)
+		vf.Assume(utf8.ValidString(s))
+		vf.Assume(hclsyntax.ValidIdentifier(s))
+		return s
+	}
 	for i := 0; i < len(s); i++ {
 		if i == 0 {
 			vf.Assume((s[i] >= 'a' && s[i] <= 'z') || (s[i] >= 'A' && s[i] <= 'Z') || s[i] == '_')
@@ -354,18 +363,18 @@ func genType(depth int) cty.Type {
 }
 
 func jsonQuote(s string) string {
-	out := `"`
+	out := []byte{'"'}
 	for i := 0; i < len(s); i++ {
 		switch s[i] {
 		case '"', '\\':
-			out += `\` + string(s[i])
+			out = append(out, '\\', s[i])
 		case '\n':
-			out += `\n`
+			out = append(out, '\\', 'n')
 		default:
-			out += string(s[i])
+			out = append(out, s[i]) // bytes, so that multi-byte characters stay intact
 		}
 	}
-	return out + `"`
+	return string(append(out, '"'))
 }
 
 // H_TypeExpr: TypeString(t) parses back to t, in native syntax and inside a JSON string.
